@@ -133,6 +133,28 @@ def _impl(tier, seed, search):
         ok, x = L.noraise('SO2.theta', lambda: (SO2(T2[:2, :2], check=False).theta(), SO2(T2[:2, :2], check=False).theta(unit='deg')), dict(T=T2), 'SO2.theta()')
         if ok:
             L.close('SO2.theta-roundtrip', inputs.r2(x[0]), T2[:2, :2], TOL, 1.0, dict(theta=xyt[2])); L.close('SO2.theta-deg', x[1], math.degrees(x[0]), 1e-9, 180.0, dict(theta=xyt[2]))
+        # the same extraction on multi-valued objects, in both units, must agree element by element with the single-valued call
+        if i % 5 == 0:
+            R2a, R2b = T2[:2, :2], inputs.r2(float(g.uniform(-PI, PI)))
+            for un in ('rad', 'deg'):
+                ok, x = L.noraise(f'SO2.theta(multi,{un})', lambda: (list(np.ravel(SO2([R2a, R2b], check=False).theta(unit=un))), [SO2(R2a, check=False).theta(unit=un), SO2(R2b, check=False).theta(unit=un)]),
+                                  dict(unit=un), 'SO2.theta() on a 2-valued object')
+                if ok: L.close(f'SO2.theta(multi,{un})', x[0], x[1], 1e-12, 180.0, dict(unit=un), what='theta() on a multi-valued object differs from the single-valued calls', sig=f'multi:SO2.theta:{un}')
+                Ta_ = np.eye(3); Ta_[:2, :2] = R2b; Ta_[:2, 2] = [0.3, -1.0]
+                ok, x = L.noraise(f'SE2.theta(multi,{un})', lambda: (list(np.ravel(SE2([T2, Ta_], check=False).theta(unit=un))), [SE2(T2, check=False).theta(unit=un), SE2(Ta_, check=False).theta(unit=un)]),
+                                  dict(unit=un), 'SE2.theta() on a 2-valued object')
+                if ok: L.close(f'SE2.theta(multi,{un})', x[0], x[1], 1e-12, 180.0, dict(unit=un), sig=f'multi:SE2.theta:{un}')
+            Ra_, Rb_ = inputs.so3(g), inputs.so3(g)
+            X2 = SO3([Ra_, Rb_], check=False)
+            def rows(A_):
+                A_ = np.asarray(A_, float); return A_ if A_.shape == (2, 3) else A_.T
+            for un in ('rad', 'deg'):
+                for o in ('zyx', 'xyz', 'yxz'):
+                    ok, x = L.noraise(f'SO3.rpy(multi,{o},{un})', lambda: (rows(X2.rpy(unit=un, order=o)), np.stack([SO3(Ra_, check=False).rpy(unit=un, order=o), SO3(Rb_, check=False).rpy(unit=un, order=o)])),
+                                      dict(unit=un, order=o), 'SO3.rpy() on a 2-valued object')
+                    if ok: L.close(f'SO3.rpy(multi,{o},{un})', x[0], x[1], 1e-12, 180.0, dict(unit=un, order=o), what='rpy() on a multi-valued object differs from the single-valued calls', sig=f'multi:SO3.rpy:{o}')
+                ok, x = L.noraise(f'SO3.eul(multi,{un})', lambda: (rows(X2.eul(unit=un)), np.stack([SO3(Ra_, check=False).eul(unit=un), SO3(Rb_, check=False).eul(unit=un)])), dict(unit=un), 'SO3.eul() on a 2-valued object')
+                if ok: L.close(f'SO3.eul(multi,{un})', x[0], x[1], 1e-12, 180.0, dict(unit=un), sig='multi:SO3.eul')
     return L.result()
 
 if __name__ == '__main__':
